@@ -829,10 +829,11 @@ def run(ctx):
                             "(3-12 variables, up to 60 clauses), structured (all sign patterns, pigeonhole, parity chains, implication ladders; shuffled, "
                             "renamed, polarity-flipped), and messy (1-8 variables, unit/empty/duplicate clauses, repeated and complementary literals); in "
                             "the thorough tier also every combination of <=3 clauses out of the 84 clause multisets of width <=3 over 3 variables and every "
-                            "combination of 4 out of the 42 clause sets. "
+                            "combination of 4 out of the 42 clause sets, each in enumeration order and in one shuffled order. "
                             "Non-trivial = at least two clauses and one clause of width >=2; distinct by the literal lists. The histogram records how many "
-                            "resolution calls / learned clauses each run needed. Tseitin: fixed corner cases, random formulas over 4 atoms of depth <=3, "
-                            "and negated tautology-scheme instances (unsatisfiable), ~45%.")
+                            "resolution calls / learned clauses each run needed. Tseitin: fixed corner cases, random formulas of depth <=3 over atom pools that "
+                            "include variables named x1..x6 (the names encode generates), x, x0, x01, x10, y1, the constants true/false and "
+                            "non-boolean equalities (m = n, x2 = n, x3 = x4 on nat) as atoms; ~45% negated tautology-scheme instances (unsatisfiable).")
     # 1. translated table + Lean obligations
     try:
         gen = translate_encode_rules(ctx)
@@ -861,8 +862,15 @@ def run(ctx):
     have_model = check_cases(ctx, sat, cases, "random")
     if ctx.tier == "thorough":
         batch = []
+        prng = ctx.rng("perm")
         for cnf in itertools.chain(gen_exhaustive(3), gen_exhaustive_sets(4)):
             batch.append(cnf)
+            # the enumeration fixes clause and literal order (pool order): also a shuffled copy of every case with >= 2 literals
+            if sum(len(cl) for cl in cnf) >= 2:
+                sh = [prng.sample(cl, len(cl)) for cl in cnf]
+                prng.shuffle(sh)
+                if sh != cnf:
+                    batch.append(sh)
             if len(batch) >= 20000:
                 check_cases(ctx, sat, batch, "exhaustive")
                 batch = []
@@ -870,7 +878,8 @@ def run(ctx):
             check_cases(ctx, sat, batch, "exhaustive")
         ctx.coverage["exhaustive"] = False  # exhaustive for the stated sub-space only
         ctx.coverage["exhaustive_subspace"] = ("all <=3-clause combinations of the 84 clause multisets of width <=3 over 3 variables, and all "
-                                               "4-clause combinations of the 42 clause sets of width <=3 over 3 variables")
+                                               "4-clause combinations of the 42 clause sets of width <=3 over 3 variables; each in pool order and once with "
+                                               "clauses and literals shuffled")
     if not have_model:
         ctx.broken("correspondence:c15:driver", "model driver unavailable")
     # 4. tseitin
